@@ -65,25 +65,25 @@ type Term struct {
 // Ctx owns the intern table, the sorts and the declarations of one
 // verification task.
 type Ctx struct {
-	terms    map[string]*Term
-	nextID   int
-	sorts    map[string]*Sort // by SMT name
-	sortList []*Sort          // creation order (dependency order for datatypes)
-	typeSort map[types.Type]*Sort
-	decls    map[string]*Decl
-	declList []*Decl
-	fresh    int
-	strLits  map[string]*Term
-	boxTypes map[string]types.Type
-	cloIDs   map[*ssa.Function]int
+	terms     map[string]*Term
+	nextID    int
+	sorts     map[string]*Sort // by SMT name
+	sortList  []*Sort          // creation order (dependency order for datatypes)
+	typeSort  map[types.Type]*Sort
+	decls     map[string]*Decl
+	declList  []*Decl
+	fresh     int
+	strLits   map[string]*Term
+	boxTypes  map[string]types.Type
+	cloIDs    map[*ssa.Function]int
 	inputMode bool
 	synthFns  map[string]*ssa.Function
-	axioms   []*Term
-	Reindex  bool // quantified array indices are rewritten to absolute positions (contract files marked `logical`)
+	axioms    []*Term
+	Reindex   bool // quantified array indices are rewritten to absolute positions (contract files marked `logical`)
 
 	Bool, Int, Ref, Iface, Str, Slice, Unit, MapH, Float *Sort
-	True, False                                             *Term
-	prog                                                    *Program
+	True, False                                          *Term
+	prog                                                 *Program
 }
 
 type Decl struct {
@@ -1075,4 +1075,3 @@ func (c *Ctx) show(sb *strings.Builder, t *Term, d int) {
 		sb.WriteString(")")
 	}
 }
-
